@@ -83,6 +83,13 @@ def main():
                         C.log("axiom audit failed:\n" + alog + json.dumps(axioms, indent=1))
                         return 2
                 n_thm = len(C.theorems_in(os.path.join(C.LEAN, "MoSql", "Props", pid + ".lean")))
+                if build_ok and tier == "thorough":
+                    # independent re-check of the compiled property module (and everything it imports)
+                    import subprocess
+                    p = subprocess.run(["lake", "env", "leanchecker", "MoSql.Props." + pid], cwd=C.LEAN, capture_output=True, text=True)
+                    ctx.leanchecker = "ok" if p.returncode == 0 else "FAILED: " + ((p.stdout or "") + (p.stderr or ""))[-600:]
+                    if p.returncode != 0:
+                        rep.tie_break("proof", "leanchecker MoSql.Props." + pid, ctx.leanchecker)
                 C.log("[%s] extract+build+audit %.1fs (build_ok=%s)" % (pid, time.time() - t0, build_ok))
         else:
             ctx.gen = json.load(open(os.path.join(C.BUILD, "gen.json")))
@@ -120,7 +127,12 @@ def main():
             "Python 3.12 re / ast.literal_eval / float / repr",
         ],
         "theorems": sorted(axioms) if axioms else [],
+        "leanchecker": getattr(ctx, "leanchecker", "not run (thorough tier only)"),
     }
+    obligations["rule"] = getattr(mod, "RULE", None) or (
+        "cases are produced by the seeded generators of tools/props/%s.py (one PRNG, VERIF_SEED) plus the fixed streams / "
+        "corpus named in the assumptions; a case is counted once per distinct canonical text (sha1), and as non-trivial "
+        "unless the module marks it trivial (atoms only, no construct under test)" % pid.lower())
     rep.assumptions = getattr(mod, "ASSUMPTIONS", [])
     return rep.finish(level="proof", obligations=obligations)
 
